@@ -85,6 +85,8 @@ var c12classes = []c12class{
 	{"inconvertible-arg", `{{ trimSpace(zq_st) }}`, true, false},
 	{"inconvertible-arg-method", `{{ zq_st.M("x") }}`, true, false},
 	{"inconvertible-piped-arg", `{{ zq_xs | trimSpace }}`, true, false},
+	{"arg-not-implementing-interface-param", `{{ zq_stringer(42) }}`, true, false},
+	{"piped-arg-not-implementing-interface-param", `{{ "x" | zq_stringer }}`, true, false},
 	{"nil-arg", `{{ trimSpace(nil) }}`, true, false},
 	{"range-non-rangeable-int", `{{range zq_i}}x{{end}}`, true, false},
 	{"range-non-rangeable-string", `{{range zq_s}}x{{end}}`, true, false},
@@ -116,8 +118,9 @@ func c12extra() map[string]interface{} {
 	return map[string]interface{}{
 		"zq_st": c12struct{A: "a"}, "zq_xs": []string{"x0", "x1", "x2"}, "zq_s": "str", "zq_i": 7, "zq_mi": map[int]string{1: "one"},
 		"zq_nilp": (*c12struct)(nil), "zq_ch": ch,
-		"zq_fail":  func() string { panic(errors.New("zq_fail reports an error")) },
-		"zq_fail1": func(int) string { panic(fmt.Errorf("zq_fail1 reports an error")) },
+		"zq_stringer": func(s fmt.Stringer) string { return s.String() },
+		"zq_fail":     func() string { panic(errors.New("zq_fail reports an error")) },
+		"zq_fail1":    func(int) string { panic(fmt.Errorf("zq_fail1 reports an error")) },
 		"zq_jf": jet.Func(func(a jet.Arguments) reflect.Value {
 			a.Get(0)
 			a.Panicf("zq_jf reports an error")
